@@ -445,6 +445,97 @@ def schema_cases(rng, thorough):
     return out
 
 
+def abort_reuse_groups(rng, thorough):
+    """ONE parser object re-used after a parse that was ABORTED in the middle of a construct, followed by well-formed
+    documents.  yields (api, scanner, val, flags, [docs]); oracle (besides ASan): every later document must get the same
+    answer as from a fresh parser (no spurious / missing errors caused by state carried across scanReset)"""
+    aborted = [
+        '<a foo="1" bar="2" ', '<a foo="1"', '<a foo="1" bar=', '<a foo="1"><b x="1" y="2" ', '<a foo="&#x', '<a foo="v&amp', "<a foo='1' bar='2'",
+        '<p:a xmlns:p="u" p:foo="1" q="2" ', '<a xmlns="u" foo="1" ', '<a><![CDATA[ xx', '<a><!-- c', '<a><?pi d', '<a>t&am', '<a>&#6', '</a', '<a></a',
+        '<!DOCTYPE a [<!ELEMENT a (b)><!ATTLIST a foo CDATA ', '<!DOCTYPE a [<!ELEMENT a (b|c', '<!DOCTYPE a [<!ENTITY e "v', '<!DOCTYPE a [<!ATTLIST a foo (x|y',
+        "<!DOCTYPE a [<!ENTITY e \"<b x='1' \">]><a>&e;</a>", "<!DOCTYPE a [<!ENTITY e \"<b x='1'>t\">]><a foo='1'>&e;</a>",
+        '<!DOCTYPE a [<!ENTITY % p "<!ELEMENT a ">%p;', '<!DOCTYPE a [<!ATTLIST a foo CDATA #IMPLIED bar CDATA "d">]><a foo="1" bar="2" ',
+        '<!DOCTYPE a [<!ELEMENT a ANY><!ATTLIST a foo ID #IMPLIED>]><a foo="i1"><a foo="i1" ', '<a foo="1" foo="2">', '<a foo="1" bar="2"></b>',
+    ]
+    followers = [
+        '<a foo="1"/>', '<a foo="1" bar="2" baz="3">t</a>', '<a bar="2" foo="1"><b x="1" y="2"/></a>', '<b x="1"/>',
+        '<a fooooooooooooooooooooooooooooooooo="1" barrrrrrrrrrrrrrrrrrrrrrrrrrrrrrr="2"/>', "<a " + " ".join('a%d="v"' % i for i in range(30)) + "/>",
+        "<a " + " ".join('%s="v"' % (chr(97 + i % 26) * (1 + i % 5)) for i in range(26)) + "/>",
+        '<p:a xmlns:p="u" p:foo="1" q="2"/>', '<a xmlns="u" foo="1"><b xmlns="" foo="2"/></a>',
+        '<!DOCTYPE a [<!ELEMENT a ANY><!ATTLIST a foo CDATA #IMPLIED bar CDATA "d">]><a foo="1"/>',
+        '<!DOCTYPE a [<!ELEMENT a (b)><!ELEMENT b EMPTY><!ATTLIST b x ID #IMPLIED>]><a><b x="i1"/></a>',
+        '<!DOCTYPE a [<!ENTITY e "v">]><a foo="&e;">&e;</a>', '<a>t<![CDATA[c]]><!-- c --><?pi d?></a>', '<a/>',
+    ]
+    apis = ["sax", "sax2", "dom", "domls"]
+    scanners = ["I", "W", "D", "S"]
+    out = []
+    n = 260 if not thorough else 6000
+    for k in range(n):
+        docs = [rng.choice(aborted)]
+        if rng.random() < 0.25:
+            docs.insert(0, rng.choice(followers))
+        for _ in range(rng.choice([1, 2, 2, 3])):
+            docs.append(rng.choice(followers))
+            if rng.random() < 0.2:
+                docs.append(rng.choice(aborted))
+        fl = rng.choice(["-", "-", "n", "n", "x", "nx", "d"])
+        out.append((apis[k % 4], scanners[(k // 4) % 4], rng.choice(["never", "never", "auto", "always"]), fl, [d.encode() for d in docs]))
+    return out
+
+
+def option_cases(rng, thorough):
+    """parser options that change buffer geometry: setInputBufferSize far below / around the reader's 16K character buffer with
+    runs of plain text, CDATA and attribute values much longer than it; low-water mark 0 / 1 / 7 on documents larger than
+    the raw buffer.  yields (kind, api, scanner, val, flags, doc)"""
+    out = []
+    runs = [10, 1022, 1023, 1024, 1025, 4001, 16383, 16384, 16385, 20000, 70000]
+    for b in (1, 16, 100, 1023, 1024, 4000, 16384, 40000):
+        for n in runs:
+            if not thorough and rng.random() < 0.45:
+                continue
+            api = rng.choice(["sax", "sax2"])
+            sc = rng.choice(["I", "W", "D", "S"])
+            body = rng.choice(["<r>%s</r>" % ("t" * n), "<r>a<e/>%s<e/>b</r>" % ("t" * n), "<r><![CDATA[%s]]></r>" % ("c" * n),
+                               "<r a='%s'>%s</r>" % ("v" * n, "t" * (n // 2)), "<r>%s\n%s&amp;%s</r>" % ("t" * n, "u" * n, "w" * n),
+                               "<r>%s</r>" % ("\u00e9" * n), "<r><!--%s--><?p %s?>%s</r>" % ("c" * n, "d" * n, "t" * n)])
+            out.append(("option-bufsize-%d" % b, api, sc, "never", rng.choice(["-", "n", "x"]) + ";B%d" % b, body.encode("utf-8")))
+    for lw in (0, 1, 7, 99, 100, 49152, 100000):
+        for api in ("sax", "sax2", "dom", "domls"):
+            n = rng.choice([16380, 49150, 49152, 60000])
+            body = "<r>" + "x" * n + rng.choice(["<!-- c -->", "<![CDATA[c]]>", "\r\n", "<e a='1'/>", "&#x20AC;", "\u20ac"]) + "y" * 100 + "</r>"
+            out.append(("option-lowwater-%d" % lw, api, rng.choice(["I", "W", "D", "S"]), "never", "n;L%d" % lw, body.encode("utf-8")))
+    return out
+
+
+REGEX_PIECES = ["a", "b", ".", "\\d", "\\w", "\\s", "\\i", "\\c", "\\D", "\\n", "\\-", "\\p{L}", "\\p{Lu}", "\\P{Nd}", "\\p{IsBasicLatin}", "\\p{IsGreek}",
+                "\\p{IsNoSuchBlock}", "\\P{Xx}", "\\p{}", "\\p{L", "\\pL", "\\p", "\\P{IsNoSuch}", "\\p{Lx}", "[a-z]", "[^a]", "[\\p{L}]", "[\\p{IsNoSuchBlock}]+",
+                "[a-z\\P{Xx}]", "[\\P{IsNoSuch}a]", "[^\\p{Qq}]", "[\\p{L}-[\\p{Lu}]]", "[a-z-[aeiou]]", "[a-z-[\\p{Zz}]]", "[\\p{}]", "[\\p{L]", "[\\p]", "[abc", "[", "[]",
+                "[^]", "[a-]", "[z-a]", "[a-z-]", "[-a]", "[a--b]", "[\\d-z]", "]", "{2}", "{2,}", "{2,1}", "{,3}", "{", "{99999999999}", "*", "+", "?", "*+", "??",
+                "(", ")", "(a|b)", "(?", "(?:a)", "|", "||", "^", "$", "\\", "\\z", "&#x10FFFF;", "&#xD7FF;", "\\p{IsHighSurrogates}", "[&#x10000;-&#x10FFFF;]"]
+
+
+def pattern_cases(rng, thorough):
+    """xs:pattern facets (regular expressions straight from a schema document): known / unknown \\p{..} \\P{..} names inside and
+    outside bracket expressions, unterminated classes, bad quantifiers ... must be reported through the error handler"""
+    pats = []
+    names = ["L", "Lu", "Nd", "IsBasicLatin", "IsGreek", "IsNoSuchBlock", "Xx", "", "Is", "IsBasicLatinX", "L}", "Cn", "IsPrivateUse", "IsSpecials"]
+    for nm in names:
+        for pp in ("p", "P"):
+            e = "\\%s{%s}" % (pp, nm)
+            pats += [e, e + "+", "[" + e + "]", "[" + e + "]+", "[a-z" + e + "]", "[^" + e + "]", "[" + e + "-[a]]", "[a-z-[" + e + "]]", "(" + e + "|x)*"]
+    for _ in range(300 if not thorough else 20000):
+        pats.append("".join(rng.choice(REGEX_PIECES) for _ in range(rng.randrange(1, 6))))
+    out = []
+    cfgs = [("sax2", "I", "always", "ns"), ("dom", "S", "always", "nsf"), ("sax", "S", "auto", "ns"), ("domls", "I", "always", "nsf")]
+    for k, pt in enumerate(pats):
+        v = pt.replace("&", "&amp;").replace("&amp;#x", "&#x").replace("<", "&lt;").replace('"', "&quot;")
+        sch = ('<xs:schema xmlns:xs="http://www.w3.org/2001/XMLSchema"><xs:simpleType name="T"><xs:restriction base="xs:string">'
+               '<xs:pattern value="%s"/></xs:restriction></xs:simpleType><xs:element name="r" type="T"/></xs:schema>' % v).encode("utf-8")
+        doc = b'<r xmlns:xsi="http://www.w3.org/2001/XMLSchema-instance" xsi:noNamespaceSchemaLocation="s.xsd">abc</r>'
+        out.append(("pattern", doc, sch, cfgs[k % 4]))
+    return out
+
+
 def gen_cases(ctx, consts):
     rng = ctx.rng
     thorough = ctx.tier == "thorough"
@@ -472,6 +563,15 @@ def gen_cases(ctx, consts):
     # 0b. histories: several documents through ONE parser object
     for kind, api, sc, val, fl, docs in history_cases(rng, thorough):
         cases.append(("history-" + kind, "hist %s %s %s %s 0 %s" % (api, sc, val, fl, " ".join("%s %s" % (hx(d), hx(e)) for d, e in docs))))
+    # 0b'. the same kind of history after an ABORTED parse (the answers are also compared with fresh parsers, see run())
+    for api, sc, val, fl, docs in abort_reuse_groups(rng, thorough):
+        cases.append(("history-abort", "hist %s %s %s %s 0 %s" % (api, sc, val, fl, " ".join("%s -" % hx(d) for d in docs))))
+    # 0b''. parser options changing the buffer geometry
+    for kind, api, sc, val, fl, doc in option_cases(rng, thorough):
+        cases.append((kind, "parse %s %s %s %s 0 %s -" % (api, sc, val, fl, hx(doc))))
+    # 0c'. regular expressions of xs:pattern facets
+    for kind, doc, sch, conf in pattern_cases(rng, thorough):
+        cases.append((kind, "parse %s %s %s %s 0 %s %s" % (conf[0], conf[1], conf[2], conf[3], hx(doc), hx(sch))))
     # 0c. malformed schemas
     for kind, doc, sch, cfgs in schema_cases(rng, thorough):
         for conf in cfgs:
@@ -747,9 +847,11 @@ def run(ctx):
     cfgs = set()
     nviol = 0
     known_sig = {}
+    answers_all = {}
     while pos < len(reqs) and nviol < 5:
         ans, status, err = run_watchdog(xh, reqs[pos:], SAN_ENV)
         for k, a in enumerate(ans):
+            answers_all[pos + k] = a
             kind = cases[pos + k][0].split("-")[0]
             kinds[kind] = kinds.get(kind, 0) + 1
             ctx.count()
@@ -803,6 +905,36 @@ def run(ctx):
     for fid, n in sorted(known_sig.items()):
         f = ctx.find_known(fid)
         ctx.known_finding(fid, "%d generated parses end in the sanitizer report of this finding (%s)" % (n, " / ".join(f["signature"])))
+    # "spurious error on a well-formed later document" oracle for the abort-reuse histories: each document of a history
+    # must get the answer a FRESH parser with the same configuration gives
+    hist_idx = [i for i, c in enumerate(cases) if c[0] == "history-abort" and i in answers_all]
+    singles = []
+    for i in hist_idx:
+        f = reqs[i].split()
+        for k in range(6, len(f), 2):
+            singles.append("parse %s %s" % (" ".join(f[1:6]), " ".join(f[k:k + 2])))
+    uniq = sorted(set(singles))
+    sans, sstat, serr = run_watchdog(xh, uniq, SAN_ENV) if uniq else ([], "ok", "")
+    nreuse_bad = 0
+    if sstat != "ok":
+        ctx.violation("sanitizer" if sstat == "crash" else "hang", {"request": uniq[len(sans)] if len(sans) < len(uniq) else None,
+                                                                     "status": sstat, "stderr": serr[:4000],
+                                                                     "what": "fresh-parser reference parse crashed / hung"})
+    else:
+        ref = dict(zip(uniq, sans))
+        for i in hist_idx:
+            f = reqs[i].split()
+            got = answers_all[i][5:].split(";") if answers_all[i].startswith("hist ") else []
+            want = [ref["parse %s %s" % (" ".join(f[1:6]), " ".join(f[k:k + 2]))] for k in range(6, len(f), 2)]
+            ctx.count(len(want))
+            if got != want:
+                nreuse_bad += 1
+                if nreuse_bad <= 3:
+                    ctx.violation("history-dependence", {"request": reqs[i], "history_answers": got, "fresh_parser_answers": want,
+                                                         "expect": "hist " + ";".join(want),
+                                                         "what": "a parser object re-used after an aborted parse answers differently "
+                                                                 "from a fresh parser (state carried across scanReset)"})
+    ctx.coverage["abort_reuse"] = {"histories": len(hist_idx), "reference_parses": len(uniq), "differing": nreuse_bad}
     ctx.coverage["input_distribution"] = kinds
     ctx.coverage["outcomes"] = outcome
     ctx.coverage["configurations_exercised"] = len(cfgs)
